@@ -128,61 +128,7 @@ func runC11(r *fw.Run) {
 		in.Run(nil)
 		r.Expect("C11-R1", "exits of ArenaResolveGraphQLResponse after GetOrCreate", nExit, 7)
 	}
-	if fi := p.Func("resolve", "Loader.loadByContext"); fi == nil {
-		r.Error("C11-R1: Loader.loadByContext not found")
-	} else {
-		var sharedObj, itemObj types.Object
-		in := fw.NewInterp(fi)
-		nExit := 0
-		in.H = fw.Hooks{
-			Node: func(n ast.Node, st *fw.State) {
-				switch x := n.(type) {
-				case *ast.AssignStmt:
-					if len(x.Rhs) == 1 && len(x.Lhs) == 2 {
-						if c, ok := ast.Unparen(x.Rhs[0]).(*ast.CallExpr); ok && fw.CallIs(info, c, "resolve", "SubgraphRequestSingleFlight.GetOrCreateItem") {
-							itemObj, sharedObj = fw.RootObj(info, x.Lhs[0]), fw.RootObj(info, x.Lhs[1])
-							st.Set("acquired")
-						}
-					}
-				case *ast.CallExpr:
-					if fw.CallIs(info, x, "resolve", "SubgraphRequestSingleFlight.Finish") && len(x.Args) == 1 && fw.RootObj(info, x.Args[0]) == itemObj {
-						st.Inc("finish")
-					}
-					if fw.CallIs(info, x, "resolve", "Loader.loadByContextDirect") && st.May("acquired") && !st.Must("exempt") && in.Final() {
-						// the shared load itself must run with Finish already registered (defer) so that a panic-free
-						// error return cannot skip it
-						r.Check(deferRegistered(st), "C11-R1", fi.Name()+"/finish-deferred-before-load", p.Pos(x.Pos()), "Finish(item) is registered by defer before the shared load starts",
-							"the leader starts the shared load without a deferred Finish: an early return between the load and an explicit Finish leaves followers blocked")
-					}
-				case *ast.DeferStmt:
-					if fw.CallIs(info, x.Call, "resolve", "SubgraphRequestSingleFlight.Finish") {
-						st.Set("finish-deferred")
-					}
-				}
-			},
-			Cond: func(e ast.Expr, branch bool, st *fw.State) {
-				if id, ok := ast.Unparen(e).(*ast.Ident); ok && sharedObj != nil && info.Uses[id] == sharedObj && branch {
-					st.Set("exempt") // follower
-				}
-			},
-			Exit: func(ret *ast.ReturnStmt, lit *ast.FuncLit, st *fw.State) {
-				if lit != nil || !in.Final() || !st.May("acquired") {
-					return
-				}
-				nExit++
-				pos := fi.Decl.End()
-				if ret != nil {
-					pos = ret.Pos()
-				}
-				c := st.Get("finish")
-				ok := st.Must("exempt") && c.Max == 0 || (!st.May("exempt") && c == fw.Cnt{Min: 1, Max: 1})
-				r.Check(ok, "C11-R1", fi.Name()+"/exit-finish-once", p.Pos(pos), "exit of loadByContext: leader calls Finish(item) exactly once, follower never",
-					"Finish(item) runs "+cntStr(c)+" times on a path to this exit (leader: 0 ⇒ followers wedge, 2 ⇒ close of closed channel; follower: any ⇒ it closes the leader's channel)")
-			},
-		}
-		in.Run(nil)
-		r.Expect("C11-R1", "exits of loadByContext after GetOrCreateItem", nExit, 4)
-	}
+	checkLoadByContextFinish(r, "C11-R1")
 
 	// ---- R2 publish before close ------------------------------------------------------------
 	r.Rule("C11-R2", "every field followers read after the wake-up is written before the channel is closed; a publish decision that reads the follower counter is atomic (same critical section) with map removal, and follower registration with map lookup")
@@ -283,7 +229,7 @@ func runC11(r *fw.Run) {
 		r.Expect("C11-R2", "AddFollower calls in GetOrCreate", n, 1)
 	}
 	// subgraph single flight: the writes of the shared item happen on the leader path with Finish deferred
-	r.Rule("C11-R3", "shared records are written only by the leader path (after Finish was deferred, i.e. before the close) and shared response buffers are never index-stored, appended to or copied into")
+	r.Rule("C11-R3", "shared records are written only by the leader path and before Finish closes the channel, and shared response buffers are never index-stored, appended to or copied into")
 	sfFields := map[string]bool{"response": true, "err": true, "statusCode": true, "responseHeaders": true}
 	nW := 0
 	for _, fi := range p.Funcs("resolve") {
@@ -310,8 +256,8 @@ func runC11(r *fw.Run) {
 						sharedObj = fw.RootObj(info, x.Lhs[1])
 					}
 				}
-				if d, ok := n.(*ast.DeferStmt); ok && fw.CallIs(info, d.Call, "resolve", "SubgraphRequestSingleFlight.Finish") {
-					st.Set("finish-deferred")
+				if c, ok := n.(*ast.CallExpr); ok && fw.CallIs(info, c, "resolve", "SubgraphRequestSingleFlight.Finish") {
+					st.Set("finished")
 				}
 				if !in.Final() {
 					return
@@ -320,8 +266,8 @@ func runC11(r *fw.Run) {
 					if v, sel := fw.Field(info, t); v != nil {
 						if _, tn := fw.FieldOwner(info, sel); tn == "SingleFlightItem" && sfFields[v.Name()] {
 							nW++
-							r.Check(st.Must("finish-deferred") && !st.May("follower"), "C11-R3", fi.Name()+"/leader-writes:"+v.Name(), p.Pos(t.Pos()), "write of SingleFlightItem."+v.Name()+" in "+fi.Name(),
-								"the shared item is written on a path that is not the leader's (Finish not deferred yet, or reachable by a follower): followers read it concurrently after the wake-up")
+							r.Check(!st.May("finished") && !st.May("follower"), "C11-R3", fi.Name()+"/leader-writes:"+v.Name(), p.Pos(t.Pos()), "write of SingleFlightItem."+v.Name()+" in "+fi.Name(),
+								"the shared item is written after Finish(item) closed the channel, or on a path a follower can take: followers read it concurrently after the wake-up")
 						}
 					}
 				}
@@ -750,6 +696,63 @@ func classifiesCancellation(p *fw.Prog, fn *types.Func) bool {
 	return found
 }
 
+// checkLoadByContextFinish: from the return of GetOrCreateItem every exit of loadByContext passes
+// Finish(item) exactly once on the leader path and never on the follower path (shared by C11-R1, C07-R6).
+func checkLoadByContextFinish(r *fw.Run, rule string) {
+	p := r.Prog
+	info := p.Pkg("resolve").TypesInfo
+	if fi := p.Func("resolve", "Loader.loadByContext"); fi == nil {
+		r.Error("%s: Loader.loadByContext not found", rule)
+	} else {
+		var sharedObj, itemObj types.Object
+		in := fw.NewInterp(fi)
+		nExit := 0
+		in.H = fw.Hooks{
+			Node: func(n ast.Node, st *fw.State) {
+				switch x := n.(type) {
+				case *ast.AssignStmt:
+					if len(x.Rhs) == 1 && len(x.Lhs) == 2 {
+						if c, ok := ast.Unparen(x.Rhs[0]).(*ast.CallExpr); ok && fw.CallIs(info, c, "resolve", "SubgraphRequestSingleFlight.GetOrCreateItem") {
+							itemObj, sharedObj = fw.RootObj(info, x.Lhs[0]), fw.RootObj(info, x.Lhs[1])
+							st.Set("acquired")
+						}
+					}
+				case *ast.CallExpr:
+					if fw.CallIs(info, x, "resolve", "SubgraphRequestSingleFlight.Finish") && len(x.Args) == 1 && fw.RootObj(info, x.Args[0]) == itemObj {
+						st.Inc("finish")
+					}
+				case *ast.DeferStmt:
+					if fw.CallIs(info, x.Call, "resolve", "SubgraphRequestSingleFlight.Finish") {
+						st.Set("finish-deferred")
+					}
+				}
+			},
+			Cond: func(e ast.Expr, branch bool, st *fw.State) {
+				if id, ok := ast.Unparen(e).(*ast.Ident); ok && sharedObj != nil && info.Uses[id] == sharedObj && branch {
+					st.Set("exempt") // follower
+				}
+			},
+			Exit: func(ret *ast.ReturnStmt, lit *ast.FuncLit, st *fw.State) {
+				if lit != nil || !in.Final() || !st.May("acquired") {
+					return
+				}
+				nExit++
+				pos := fi.Decl.End()
+				if ret != nil {
+					pos = ret.Pos()
+				}
+				c := st.Get("finish")
+				ok := st.Must("exempt") && c.Max == 0 || (!st.May("exempt") && c == fw.Cnt{Min: 1, Max: 1})
+				r.Check(ok, rule, fi.Name()+"/exit-finish-once", p.Pos(pos), "exit of loadByContext: leader calls Finish(item) exactly once, follower never",
+					"Finish(item) runs "+cntStr(c)+" times on a path to this exit (leader: 0 ⇒ followers wedge, 2 ⇒ close of closed channel; follower: any ⇒ it closes the leader's channel)")
+			},
+		}
+		in.Run(nil)
+		r.Expect(rule, "exits of loadByContext after GetOrCreateItem", nExit, 4)
+	}
+
+}
+
 func cntStr(c fw.Cnt) string {
 	if c.Min == c.Max {
 		return itoa(int(c.Min))
@@ -776,7 +779,6 @@ func itoa(n int) string {
 	return s
 }
 
-func deferRegistered(st *fw.State) bool { return st.Must("finish-deferred") }
 
 // mustFollow: on every path from node `from` to an exit of fi a call satisfying pred occurs.
 func mustFollow(fi *fw.FuncInfo, from ast.Node, pred func(*ast.CallExpr) bool) bool {
